@@ -100,8 +100,92 @@ def project_lim(impl):
             t = re.sub(r"^(q0\.rr=ok):.*$", r"\1", t)
             t = re.sub(r"^(q0\.rt=trailers):.*$", r"\1", t)
             keep.append(t)
-    parts = [p for p in summ.split() if p.startswith("0:") or p.startswith("closed=")]
+    # stream 0 and the later request streams of the same handle (4, 8, ...: bidirectional, client-initiated)
+    def req_stream(p):
+        sid = p.split(":", 1)[0]
+        return sid.isdigit() and int(sid) % 4 == 0
+    parts = [p for p in summ.split() if req_stream(p) or p.startswith("closed=")]
     return "%s | %s" % (" ".join(keep) if keep else "-", " ".join(parts))
+
+
+# ---------------------------------------------------------------------------------------------------------------------
+# histories on ONE client handle (second round, seeds2/C11 patch3): an accepted request, a request refused locally
+# for its size (the peer's limit is known), then further requests.  Every request has its own stream; what is written
+# on it has to be the encoding of THAT request's fields (model: `encodeStateless` of its own field list) — a refused
+# request writes nothing, neither on its own stream nor, later, on somebody else's.
+
+HIST_POOL = [(b"accept", b"*/*"), (b"accept-encoding", b"gzip, deflate, br"), (b"cache-control", b"no-cache"),
+             (b"user-agent", None), (b"cookie", None), (b"referer", None), (b"x-a", None), (b"x-b", None),
+             (b"x-custom-name-long", None), (b"accept-language", None), (b"if-none-match", None)]
+HIST_SHAPES = ["ARA", "RA", "AARA", "ARRA", "ARARA", "RRA", "ARAA", "AAA", "RR"]
+
+
+def _hist_fields(rng, limit, refused):
+    """non-pseudo fields of one GET https://a/ request: size <= limit (accepted) or > limit (refused)"""
+    k = rng.randrange(0, 4)
+    fs = []
+    for n, v in rng.sample(HIST_POOL, k):
+        if v is None:
+            v = bytes(rng.choice(b"abcdefghijklmnopqrstuvwxyz0123456789=;, /-_.") for _ in range(rng.choice([0, 1, 3, 8, 20])))
+        fs.append((n, v))
+    while size(REQ_FIELDS + fs) > limit and fs:
+        fs.pop()
+    if refused:
+        d = rng.choice([1, 1, 2, 33, 50, 100, 300])
+        while True:
+            padded = pad_to(REQ_FIELDS + fs, limit + d, b"x-pad")
+            if padded is not None:
+                return padded[len(REQ_FIELDS):]
+            d += 37
+    return fs
+
+
+def history_lines(rng, nrandom):
+    """`lim client` lines with several `send_request` calls on the same handle"""
+    out = []
+
+    def line(limit, shape, settings_after_first):
+        cs = "o3 s3:%s" % hx(settings_chunk(limit))
+        ops = []
+        for i, c in enumerate(shape):
+            # before the peer's SETTINGS have arrived every request fits the protocol default
+            refused = c == "R" and not (settings_after_first and i == 0)
+            ops.append("snd.R:GET:%s:%s" % (URI, hdrs_arg(REQ_FIELDS + _hist_fields(rng, limit, refused))))
+        if settings_after_first:
+            ops.insert(1, cs)
+        else:
+            ops.insert(0, cs)
+        return "lim client - drv.W " + " ".join(ops)
+
+    for limit in (167, 168, 200, 250, 1000):
+        for shape in HIST_SHAPES:
+            out.append(line(limit, shape, False))
+            out.append(line(limit, "A" + shape, True))
+    for _ in range(nrandom):
+        limit = rng.choice([167, 170, 199, 200, 220, 250, 400, 1000, 5000])
+        n = rng.randrange(2, 8)
+        shape = "".join(rng.choice("AAR") for _ in range(n))
+        out.append(line(limit, shape, rng.random() < 0.3))
+    return out
+
+
+def history_shrinks(line):
+    """drop one `send_request` of a history at a time (the line stays a complete scenario)"""
+    w = line.split()
+    idx = [i for i, t in enumerate(w) if t.startswith("snd.R:")]
+    if len(idx) < 2:
+        return []
+    out = [" ".join(w[:i] + w[i + 1:]) for i in idx]
+    # and the optional fields of one request
+    for i in idx:
+        head, _, hdrs = w[i].rpartition(":")
+        fs = hdrs.split(";") if hdrs != "-" else []
+        fs = [f for f in fs]
+        for j in range(len(fs)):
+            if not fs[j].startswith("x-pad="):
+                rest = fs[:j] + fs[j + 1:]
+                out.append(" ".join(w[:i] + [head + ":" + (";".join(rest) if rest else "-")] + w[i + 1:]))
+    return out
 
 
 class C10(Prop):
@@ -299,6 +383,8 @@ class C10(Prop):
         L = []
         self._fn(tier, rng, L)
         self._lim(tier, rng, L)
+        # second round: several requests on one client handle, a locally refused one among them
+        L += history_lines(rng, 3000 if tier == "thorough" else 300)
         return L
 
     def project(self, line, impl):
@@ -306,6 +392,9 @@ class C10(Prop):
 
     def klass(self, line, impl):
         w = line.split()
+        if w[0] == "lim" and line.count(" snd.R:") >= 2:
+            calls = ["A" if "=req:" in t else "R" for t in impl.split(" | ")[0].split() if t.startswith("snd.R=")]
+            return "lim/history/" + "".join(calls)
         if w[0] == "lim":
             calls = [t.split("=")[0] + "=" + ("toobig" if "toobig" in t else t.split("=", 1)[1].split(":")[0])
                      for t in impl.split(" | ")[0].split() if "=" in t]
@@ -324,11 +413,16 @@ class C10(Prop):
         if line.startswith("qpack "):
             return P11.shrink_candidates(line)
         w = line.split()
-        out = []
+        out = history_shrinks(line)
         # drop trailing ops
         if len(w) > 5:
             out.append(" ".join(w[:-1]))
         return out
 
+
+# second round (histories on one handle): appended here so that the class body above stays as it was
+C10.rule = C10.rule.replace("; non-trivial = ", "; histories of 2..8 send_request calls on ONE client handle (accepted / refused for size "
+                            "in every order, SETTINGS before the first or between the first and the second), each request stream "
+                            "compared with the encoding of that request's own fields; non-trivial = ")
 
 PROP = C10()
